@@ -19,6 +19,8 @@ type Term struct {
 	c    *big.Int // constant value (bv/int) ; for bool consts c=0/1
 	name string   // var / uf name / extract params
 	id   int
+	lo   *big.Int // Int sort: known interval (nil = unknown)
+	hi   *big.Int
 }
 
 type tkey struct {
@@ -141,11 +143,32 @@ func Ite(c, a, b *Term) *Term {
 	if a.w == 0 {
 		return Or(And(c, a), And(Not(c), b))
 	}
-	return mk("ite", a.w, "", nil, c, a, b)
+	if a.w != b.w {
+		panic(fmt.Sprintf("ite sort mismatch %d %d", a.w, b.w))
+	}
+	r := mk("ite", a.w, "", nil, c, a, b)
+	if a.w == SortInt {
+		al, ah := a.bounds()
+		bl, bh := b.bounds()
+		if al != nil && ah != nil && bl != nil && bh != nil {
+			setBounds(r, minBig(al, bl), maxBig(ah, bh))
+		}
+	}
+	return r
 }
 func Eq(a, b *Term) *Term {
 	if a == b {
 		return Bool(true)
+	}
+	if (a.w == SortInt) != (b.w == SortInt) {
+		a, b = coerceInt(a), coerceInt(b)
+	}
+	if a.w == SortInt && !(a.IsConst() && b.IsConst()) {
+		al, ah := a.bounds()
+		bl, bh := b.bounds()
+		if (ah != nil && bl != nil && ah.Cmp(bl) < 0) || (al != nil && bh != nil && al.Cmp(bh) > 0) {
+			return Bool(false)
+		}
 	}
 	if a.IsConst() && b.IsConst() {
 		if a.w == 0 {
@@ -164,6 +187,18 @@ func Eq(a, b *Term) *Term {
 
 // bin builds a bit-vector binary op with constant folding.
 func Bin(op string, a, b *Term) *Term {
+	if a.w == SortInt || b.w == SortInt {
+		a, b = coerceInt(a), coerceInt(b)
+		switch op {
+		case "bvadd":
+			return IArith("+", a, b)
+		case "bvsub":
+			return IArith("-", a, b)
+		case "bvmul":
+			return IArith("*", a, b)
+		}
+		panic("Bin " + op + " on Int terms")
+	}
 	w := a.w
 	if a.IsConst() && b.IsConst() {
 		x, y := a.c, b.c
@@ -257,6 +292,16 @@ func Bin(op string, a, b *Term) *Term {
 }
 
 func Cmp(op string, a, b *Term) *Term {
+	if a.w == SortInt || b.w == SortInt {
+		a, b = coerceInt(a), coerceInt(b)
+		switch op {
+		case "bvslt", "bvult":
+			return ICmp("<", a, b)
+		case "bvsle", "bvule":
+			return ICmp("<=", a, b)
+		}
+		panic("Cmp " + op + " on Int terms")
+	}
 	if a.IsConst() && b.IsConst() {
 		var r bool
 		switch op {
@@ -276,6 +321,16 @@ func Cmp(op string, a, b *Term) *Term {
 	}
 	return mk(op, 0, "", nil, a, b)
 }
+func coerceInt(t *Term) *Term {
+	if t.w == SortInt {
+		return t
+	}
+	if t.IsConst() {
+		return IntBig(t.Signed())
+	}
+	panic(fmt.Sprintf("mixing Int and bit-vector terms: %s", termString(t, 3)))
+}
+
 func ZExt(a *Term, w int) *Term {
 	if w == a.w {
 		return a
@@ -303,6 +358,31 @@ func Extract(a *Term, hi, lo int) *Term {
 	}
 	if (a.op == "zext" || a.op == "sext") && hi < a.args[0].w {
 		return Extract(a.args[0], hi, lo)
+	}
+	if a.op == "zext" && lo >= a.args[0].w {
+		return BV(hi-lo+1, 0)
+	}
+	if a.op == "int2bv" {
+		// bits [hi:lo] of x mod 2^w  =  floor(x / 2^lo) mod 2^(hi-lo+1)
+		x := a.args[0]
+		if lo > 0 {
+			x = IArith("div", x, IntBig(new(big.Int).Lsh(big.NewInt(1), uint(lo))))
+		}
+		return Int2BV(x, hi-lo+1)
+	}
+	if a.op == "bvlshr" && a.args[1].IsConst() {
+		k := int(a.args[1].Uint())
+		if hi+k < a.w {
+			return Extract(a.args[0], hi+k, lo+k)
+		}
+	}
+	if a.op == "ite" {
+		return Ite(a.args[0], Extract(a.args[1], hi, lo), Extract(a.args[2], hi, lo))
+	}
+	if a.op == "extract" {
+		var h0, l0 int
+		fmt.Sscanf(a.name, "%d %d", &h0, &l0)
+		return Extract(a.args[0], hi+l0, lo+l0)
 	}
 	return mk("extract", hi-lo+1, fmt.Sprintf("%d %d", hi, lo), nil, a)
 }
@@ -356,6 +436,10 @@ func (t *Term) def() string {
 		return fmt.Sprintf("((_ extract %s) %s)", t.name, as[0])
 	case "app":
 		return fmt.Sprintf("(%s %s)", smtName(t.name), as[0])
+	case "int2bv":
+		return fmt.Sprintf("((_ int2bv %s) %s)", t.name, as[0])
+	case "bv2int":
+		return fmt.Sprintf("(bv2int %s)", as[0])
 	}
 	return "(" + t.op + " " + strings.Join(as, " ") + ")"
 }
@@ -431,7 +515,28 @@ func IArith(op string, a, b *Term) *Term {
 			return a
 		}
 	}
-	return mk(op, w, "", nil, a, b)
+	// (x + c1) + c2 -> x + (c1+c2)
+	if w == SortInt && (op == "+" || op == "-") && b.IsConst() && a.op == "+" && a.args[1].IsConst() {
+		c := new(big.Int)
+		if op == "+" {
+			c.Add(a.args[1].c, b.c)
+		} else {
+			c.Sub(a.args[1].c, b.c)
+		}
+		return IArith("+", a.args[0], IntBig(c))
+	}
+	if w == SortInt && op == "-" && b.IsConst() {
+		return IArith("+", a, IntBig(new(big.Int).Neg(b.c)))
+	}
+	if w == SortInt && op == "+" && a.IsConst() && !b.IsConst() {
+		a, b = b, a
+	}
+	r := mk(op, w, "", nil, a, b)
+	if w == SortInt {
+		lo, hi := intBounds(op, a, b)
+		setBounds(r, lo, hi)
+	}
+	return r
 }
 func ICmp(op string, a, b *Term) *Term { // < <= > >=
 	if a.IsConst() && b.IsConst() {
@@ -449,6 +554,24 @@ func ICmp(op string, a, b *Term) *Term { // < <= > >=
 	}
 	if a == b {
 		return Bool(op == "<=" || op == ">=")
+	}
+	if op == ">" {
+		return ICmp("<", b, a)
+	}
+	if op == ">=" {
+		return ICmp("<=", b, a)
+	}
+	al, ah := a.bounds()
+	bl, bh := b.bounds()
+	if ah != nil && bl != nil {
+		if c := ah.Cmp(bl); c < 0 || (c == 0 && op == "<=") {
+			return Bool(true)
+		}
+	}
+	if al != nil && bh != nil {
+		if c := al.Cmp(bh); c > 0 || (c == 0 && op == "<") {
+			return Bool(false)
+		}
 	}
 	return mk(op, 0, "", nil, a, b)
 }
@@ -472,3 +595,265 @@ func OrN(ts ...*Term) *Term {
 	return r
 }
 func Implies(a, b *Term) *Term { return Or(Not(a), b) }
+
+// ---- Go `int` as mathematical Int -------------------------------------------
+// Values of Go type int (lengths, offsets, indices, counters) are Int terms.
+// Every Int term carries an interval [lo,hi] when one is known statically; an
+// arithmetic result whose interval fits int64 cannot have wrapped, so Int
+// semantics equals Go semantics. Results without such an interval produce an
+// explicit overflow obligation (see Interp.intResult).
+
+var (
+	minInt64 = new(big.Int).Neg(new(big.Int).Lsh(big.NewInt(1), 63))
+	maxInt64 = new(big.Int).Sub(new(big.Int).Lsh(big.NewInt(1), 63), big.NewInt(1))
+)
+
+func IX(k int64) *Term { return IntC(k) }
+
+func (t *Term) bounds() (lo, hi *big.Int) {
+	if t.w != SortInt {
+		return nil, nil
+	}
+	if t.op == "const" {
+		return t.c, t.c
+	}
+	return t.lo, t.hi
+}
+func (t *Term) fitsInt64() bool {
+	lo, hi := t.bounds()
+	return lo != nil && hi != nil && lo.Cmp(minInt64) >= 0 && hi.Cmp(maxInt64) <= 0
+}
+func (t *Term) nonNeg() bool {
+	lo, _ := t.bounds()
+	return lo != nil && lo.Sign() >= 0
+}
+func setBounds(t *Term, lo, hi *big.Int) *Term {
+	if t.op == "const" || lo == nil || hi == nil {
+		return t
+	}
+	if t.lo == nil || lo.Cmp(t.lo) > 0 {
+		t.lo = lo
+	}
+	if t.hi == nil || hi.Cmp(t.hi) < 0 {
+		t.hi = hi
+	}
+	return t
+}
+func IntVarR(name string, lo, hi *big.Int) *Term {
+	return setBounds(IntVar(name), lo, hi)
+}
+
+func minBig(xs ...*big.Int) *big.Int {
+	m := xs[0]
+	for _, x := range xs[1:] {
+		if x.Cmp(m) < 0 {
+			m = x
+		}
+	}
+	return m
+}
+func maxBig(xs ...*big.Int) *big.Int {
+	m := xs[0]
+	for _, x := range xs[1:] {
+		if x.Cmp(m) > 0 {
+			m = x
+		}
+	}
+	return m
+}
+
+// intBounds computes the interval of op(a,b).
+func intBounds(op string, a, b *Term) (*big.Int, *big.Int) {
+	al, ah := a.bounds()
+	bl, bh := b.bounds()
+	if al == nil || ah == nil || bl == nil || bh == nil {
+		if op == "mod" && b.IsConst() && b.c.Sign() > 0 {
+			return big.NewInt(0), new(big.Int).Sub(b.c, big.NewInt(1))
+		}
+		return nil, nil
+	}
+	n := func() *big.Int { return new(big.Int) }
+	switch op {
+	case "+":
+		return n().Add(al, bl), n().Add(ah, bh)
+	case "-":
+		return n().Sub(al, bh), n().Sub(ah, bl)
+	case "*":
+		p := []*big.Int{n().Mul(al, bl), n().Mul(al, bh), n().Mul(ah, bl), n().Mul(ah, bh)}
+		return minBig(p...), maxBig(p...)
+	case "div":
+		if b.IsConst() && b.c.Sign() > 0 {
+			ql, _ := floorDivMod(al, b.c)
+			qh, _ := floorDivMod(ah, b.c)
+			return ql, qh
+		}
+	case "mod":
+		if b.IsConst() && b.c.Sign() > 0 {
+			if al.Sign() >= 0 && ah.Cmp(b.c) < 0 {
+				return al, ah
+			}
+			return big.NewInt(0), n().Sub(b.c, big.NewInt(1))
+		}
+	}
+	return nil, nil
+}
+
+// BV2Int converts a bit-vector term to Int (unsigned or two's complement).
+func BV2Int(t *Term, signed bool) *Term {
+	if t.w == SortInt {
+		return t
+	}
+	if t.IsConst() {
+		if signed {
+			return IntBig(t.Signed())
+		}
+		return IntBig(t.c)
+	}
+	if t.op == "ite" {
+		return Ite(t.args[0], BV2Int(t.args[1], signed), BV2Int(t.args[2], signed))
+	}
+	if !signed {
+		if t.op == "zext" {
+			return BV2Int(t.args[0], false)
+		}
+		if t.op == "bvor" || t.op == "bvadd" || t.op == "bvxor" {
+			al, ah := bitRange(t.args[0])
+			bl, bh := bitRange(t.args[1])
+			if ah < bl || bh < al { // disjoint bit supports: or = xor = add = sum
+				return IArith("+", BV2Int(t.args[0], false), BV2Int(t.args[1], false))
+			}
+		}
+		if t.op == "bvshl" && t.args[1].IsConst() {
+			k := int(t.args[1].Uint())
+			_, h := bitRange(t.args[0])
+			if h+k < t.w {
+				return IArith("*", BV2Int(t.args[0], false), IntBig(new(big.Int).Lsh(big.NewInt(1), uint(k))))
+			}
+		}
+		if t.op == "int2bv" {
+			x := t.args[0]
+			lo, hi := x.bounds()
+			lim := new(big.Int).Lsh(big.NewInt(1), uint(t.w))
+			if lo != nil && hi != nil && lo.Sign() >= 0 && hi.Cmp(lim) < 0 {
+				return x
+			}
+			return IArith("mod", x, IntBig(lim))
+		}
+		r := mk("bv2int", SortInt, "", nil, t)
+		return setBounds(r, big.NewInt(0), new(big.Int).Sub(new(big.Int).Lsh(big.NewInt(1), uint(t.w)), big.NewInt(1)))
+	}
+	if t.op == "sext" {
+		return BV2Int(t.args[0], true)
+	}
+	if t.op == "zext" {
+		return BV2Int(t.args[0], false)
+	}
+	if t.op == "int2bv" && t.w == 64 && t.args[0].fitsInt64() {
+		return t.args[0]
+	}
+	u := mk("bv2int", SortInt, "", nil, t)
+	half := new(big.Int).Lsh(big.NewInt(1), uint(t.w-1))
+	full := new(big.Int).Lsh(big.NewInt(1), uint(t.w))
+	setBounds(u, big.NewInt(0), new(big.Int).Sub(full, big.NewInt(1)))
+	r := Ite(ICmp("<", u, IntBig(half)), u, IArith("-", u, IntBig(full)))
+	return setBounds(r, new(big.Int).Neg(half), new(big.Int).Sub(half, big.NewInt(1)))
+}
+
+// bitRange returns the lowest and highest bit position that can be non-zero in t
+// (lo > hi means the value is zero).
+func bitRange(t *Term) (int, int) {
+	switch t.op {
+	case "const":
+		if t.c.Sign() == 0 {
+			return 1, 0
+		}
+		lo := 0
+		for t.c.Bit(lo) == 0 {
+			lo++
+		}
+		return lo, t.c.BitLen() - 1
+	case "zext":
+		return bitRange(t.args[0])
+	case "bvshl":
+		if t.args[1].IsConst() {
+			k := int(t.args[1].Uint())
+			l, h := bitRange(t.args[0])
+			if l > h {
+				return 1, 0
+			}
+			if h+k >= t.w {
+				h = t.w - 1 - k
+			}
+			return l + k, h + k
+		}
+	case "bvlshr":
+		if t.args[1].IsConst() {
+			k := int(t.args[1].Uint())
+			l, h := bitRange(t.args[0])
+			if h-k < 0 {
+				return 1, 0
+			}
+			if l-k < 0 {
+				l = k
+			}
+			return l - k, h - k
+		}
+	case "bvor", "bvxor":
+		al, ah := bitRange(t.args[0])
+		bl, bh := bitRange(t.args[1])
+		if al > ah {
+			return bl, bh
+		}
+		if bl > bh {
+			return al, ah
+		}
+		if bl < al {
+			al = bl
+		}
+		if bh > ah {
+			ah = bh
+		}
+		return al, ah
+	case "bvand":
+		al, ah := bitRange(t.args[0])
+		bl, bh := bitRange(t.args[1])
+		if bl > al {
+			al = bl
+		}
+		if bh < ah {
+			ah = bh
+		}
+		return al, ah
+	case "int2bv":
+		lo, hi := t.args[0].bounds()
+		if lo != nil && hi != nil && lo.Sign() >= 0 && hi.BitLen() <= t.w {
+			if hi.Sign() == 0 {
+				return 1, 0
+			}
+			return 0, hi.BitLen() - 1
+		}
+	}
+	return 0, t.w - 1
+}
+
+// Int2BV converts an Int term to a bit-vector of width w (wrapping).
+func Int2BV(t *Term, w int) *Term {
+	if t.w != SortInt {
+		panic("Int2BV of non-Int")
+	}
+	if t.IsConst() {
+		return BVbig(w, t.c)
+	}
+	if t.op == "bv2int" {
+		x := t.args[0]
+		switch {
+		case x.w == w:
+			return x
+		case x.w < w:
+			return ZExt(x, w)
+		default:
+			return Extract(x, w-1, 0)
+		}
+	}
+	return mk("int2bv", w, fmt.Sprint(w), nil, t)
+}
